@@ -859,6 +859,9 @@ type c14AggState struct {
 	attCalls    int
 	wantTime    time.Time
 	ran         bool
+	// realAtt: the attester is the real attester/standard service; a validator that "does not attest" is one
+	// for which the signer returns no signature
+	realAtt bool
 }
 
 func c14ValSig(i phase0.ValidatorIndex) phase0.BLSSignature {
@@ -870,7 +873,7 @@ func c14ValSig(i phase0.ValidatorIndex) phase0.BLSSignature {
 }
 
 func c14AggBody(st *c14AggState, assign []int) {
-	*st = c14AggState{committeeOf: assign}
+	*st = c14AggState{committeeOf: assign, realAtt: st.realAtt}
 	n := len(assign)
 	idx := func(i int) phase0.ValidatorIndex { return phase0.ValidatorIndex(21 + i) }
 	var members [2][]int
@@ -961,6 +964,21 @@ func c14AggBody(st *c14AggState, assign []int) {
 	}
 	sched := &c14Sched{}
 	agg := &c14RecAggregator{}
+	var attSvc attester.Service = att
+	var env *attEnv
+	if st.realAtt {
+		env = &attEnv{accts: map[phase0.ValidatorIndex]*hAccount{}, ct: ct}
+		for i := range assign {
+			env.accts[idx(i)] = accts.byIndex[idx(i)]
+		}
+		env.dataFn = func(_ context.Context, _ int, _ *api.AttestationDataOpts) (*phase0.AttestationData, error) {
+			return c14AttData(0), nil
+		}
+		env.signFn = func(_ int, vals []phase0.ValidatorIndex) (bool, func(int) bool) {
+			return false, func(k int) bool { return !st.attested[int(vals[k])-21] }
+		}
+		attSvc = newAttesterWithSpec(env, nil, c14SlotDur, c14SlotsPerEpoch)
+	}
 	svc, err := standardcontroller.New(ctx,
 		standardcontroller.WithLogLevel(zerolog.Disabled),
 		standardcontroller.WithMonitor(&nullmetrics.Service{}),
@@ -972,7 +990,7 @@ func c14AggBody(st *c14AggState, assign []int) {
 		standardcontroller.WithValidatingAccountsProvider(accts),
 		standardcontroller.WithProposalsPreparer(c14Preparer{}),
 		standardcontroller.WithScheduler(sched),
-		standardcontroller.WithAttester(att),
+		standardcontroller.WithAttester(attSvc),
 		standardcontroller.WithBeaconBlockProposer(c14Proposer{}),
 		standardcontroller.WithBeaconCommitteeSubscriber(subscriber),
 		standardcontroller.WithAttestationAggregator(agg),
@@ -996,6 +1014,9 @@ func c14AggBody(st *c14AggState, assign []int) {
 	base := len(sched.jobs)
 	svc.AttestAndScheduleAggregate(ctx, merged[0])
 	st.attCalls = att.calls
+	if env != nil {
+		st.attCalls = len(env.data)
+	}
 	// run what was scheduled (as the scheduler would) and see which aggregations it performs
 	for _, j := range sched.jobs[base:] {
 		rec := c14AggJob{name: j.name, at: j.at, err: j.err}
@@ -1136,6 +1157,12 @@ func c14AggUnits(_ string) []hx.Unit {
 		u.Body = func() { c14AggBody(st, assign) }
 		u.Check = func(r *mc.Result) mc.Verdict { return c14AggCheck(st, r) }
 		units = append(units, u)
+		// the same with the real attester: a validator that does not attest is one the signer returns nothing for
+		str := &c14AggState{realAtt: true}
+		ur := hx.Unit{Name: fmt.Sprintf("C14/agg-real-attester/committees-%d-%d-%d", assign[0], assign[1], assign[2]), Cfg: mc.Config{Fixed: true}}
+		ur.Body = func() { c14AggBody(str, assign) }
+		ur.Check = func(r *mc.Result) mc.Verdict { return c14AggCheck(str, r) }
+		units = append(units, ur)
 	}
 	return units
 }
